@@ -198,7 +198,7 @@ def parse(g: Grammar, start: str, text: str, start_pos: int = 0, stats: Stats | 
                 if r is not FAIL:
                     return r
             return FAIL
-        if k == "grp":
+        if k in ("grp", "bare"):
             return ev(e[1], pos, stack, at, look)
         if k == "tag":
             return ev(e[2], pos, stack, at, look)
